@@ -1569,7 +1569,7 @@ sexp sexp_intern(sexp ctx, const char *str, sexp_sint_t len) {
     goto normal_intern;
   for ( ; i<len; i++, p++) {
     c = *p;
-    if ((unsigned char)c <= 32 || (unsigned char)c > 127 || c == '\\' || c == '|' || c == '.' || c =='#' || sexp_is_separator(c))
+    if ((unsigned char)c <= 32 || (unsigned char)c > 127 || c == '\\' || c == '|' || c == '.' || c =='#' || c == '`' || sexp_is_separator(c))
       goto normal_intern;
     he = huff_table[(unsigned char)c];
     newbits = he.len;
@@ -2348,6 +2348,8 @@ sexp sexp_write_one (sexp ctx, sexp obj, sexp out, sexp_sint_t bound) {
       str = sexp_lsymbol_data(obj);
       c = (sexp_lsymbol_length(obj) == 0 ||
            (sexp_lsymbol_length(obj) == 1 && str[0] == '.') ||
+           (sexp_lsymbol_length(obj) > 1 && str[0] == '.' && sexp_isdigit((unsigned char)str[1])) ||
+           str[0] == '`' ||
            sexp_isdigit((unsigned char)str[0]) ||
            (sexp_lsymbol_length(obj) > 1 &&
             ((str[0] == '+' || str[0] == '-')
